@@ -1,6 +1,7 @@
 package main
 
 import (
+	"sync/atomic"
 	"fmt"
 	"os"
 	"sort"
@@ -138,6 +139,46 @@ func (h *HarnessRun) fallbackCheck(ex *Exec, extra *Term) string {
 		}
 	}
 	return "unknown"
+}
+
+// Cross-solver re-check of discharged obligations: every crossEvery-th "unsat" verdict of the primary
+// solver is posed again, from scratch (fresh process, full path condition), to a solver of a different
+// code base. Agreement and undecided re-checks are counted in the evidence; a disagreement makes the
+// run INCONCLUSIVE (an encoding or solver bug, not a verdict).
+var crossEvery = 0
+var gCross struct{ Seen, Checked, Agree, Undecided, Disagree int64 }
+var crossSolver = "z3-new"
+
+func (h *HarnessRun) crossCheck(ex *Exec, extra *Term, what string) {
+	if crossEvery <= 0 {
+		return
+	}
+	if atomic.AddInt64(&gCross.Seen, 1)%int64(crossEvery) != 0 {
+		return
+	}
+	s, err := NewSolver(crossSolver, 15000)
+	if err != nil {
+		return
+	}
+	defer s.Close()
+	atomic.AddInt64(&gCross.Checked, 1)
+	s.Begin(ex.tt)
+	for _, c := range ex.pc {
+		s.Assert(c)
+	}
+	q0, t0 := gStats.Queries, gStats.TimeNanos
+	r, _ := s.CheckWith(extra, nil)
+	_ = q0
+	_ = t0
+	switch r {
+	case "unsat":
+		atomic.AddInt64(&gCross.Agree, 1)
+	case "sat":
+		atomic.AddInt64(&gCross.Disagree, 1)
+		h.noteUnknown(ex, "SOLVER DISAGREEMENT ("+primarySolver+" unsat, "+crossSolver+" sat) on "+what)
+	default:
+		atomic.AddInt64(&gCross.Undecided, 1)
+	}
 }
 
 // violation records a failed obligation on the current path (PC is feasible).
